@@ -200,7 +200,7 @@ class C11(Property):
         "tracing wrappers of the harness around the four methods (they call the originals and only record)",
     ]
     assumptions = ["Grid setters (gpts/sampling with locked extent) are C17's subject: the grid after a setter is read from the object"]
-    rule = ("random histories (2-6 ops: build eager/lazy, set gpts, set sampling) on Potential objects over 1-4 atoms of C/O/Si, 1-4 slices, "
+    rule = ("random histories (2-6 ops: build eager/lazy, set gpts, set sampling, first grid by grid.match; frozen-phonon ensembles in a quarter) on Potential objects over 1-4 atoms of C/O/Si, 1-4 slices, "
             "infinite and finite projection, initial grid by gpts or sampling; distinct = distinct case JSON; non-trivial = a build after "
             "a grid change following an earlier build")
 
@@ -263,8 +263,9 @@ class C11(Property):
                         a = np.asarray(pot.build(lazy=op[1] == "lazy").compute(progress_bar=False).array)
                         b = np.asarray(fresh.build(lazy=False).array)
                     else:
-                        a = np.asarray(abtem.PlaneWave(energy=100e3).multislice(pot, lazy=False).array)
-                        b = np.asarray(abtem.PlaneWave(energy=100e3).multislice(fresh, lazy=False).array)
+                        wkw = dict(energy=100e3, gpts=tuple(pot.gpts)) if k % 2 else dict(energy=100e3)  # waves with / without own grid
+                        a = np.asarray(abtem.PlaneWave(**wkw).multislice(pot, lazy=False).array)
+                        b = np.asarray(abtem.PlaneWave(**wkw).multislice(fresh, lazy=False).array)
                 except Exception as e:  # noqa
                     ctx.violation(key, case, dict(detail, raised=f"{type(e).__name__}: {str(e)[:200]}"))
                     return
@@ -294,7 +295,41 @@ class C11(Property):
         [["match", [12, 8]], ["simulate"], ["gpts", [8, 8]], ["simulate"], ["gpts", [16, 16]], ["build", "lazy"]],
     ]
 
+    def oracle_gridless_reuse(self, ctx: Ctx, case):
+        """a potential WITHOUT a grid of its own used in two simulations whose waves have different grids: the second result must be
+        what a fresh potential gives (recorded finding: it keeps the grid of the first waves and overwrites the second waves' grid)"""
+        import abtem
+
+        g1, g2 = tuple(case["g1"]), tuple(case["g2"])
+        c = dict(case, nogrid=True)
+        pot = make_potential(c)
+        abtem.PlaneWave(gpts=g1, energy=100e3).multislice(pot, lazy=False)
+        w2 = abtem.PlaneWave(gpts=g2, energy=100e3)
+        ctx.evaluations += 1
+        try:
+            a = np.asarray(w2.multislice(pot, lazy=False).array)
+        except Exception as e:  # noqa
+            ctx.violation(f"gridless-potential-second-simulation-raises-{case['projection']}", case, {"raised": f"{type(e).__name__}: {str(e)[:160]}"})
+            return
+        b = np.asarray(abtem.PlaneWave(gpts=g2, energy=100e3).multislice(make_potential(c), lazy=False).array)
+        if a.shape != b.shape or not np.allclose(a, b, rtol=1e-5, atol=1e-6):
+            # the recorded case, re-derived: the potential still has the first waves' grid and the second waves were regridded to it
+            recorded = g1 != g2 and tuple(pot.gpts) == g1 and tuple(w2.gpts) == g1 and a.shape[-2:] == g1
+            ctx.violation("gridless-potential-keeps-grid-of-first-waves" if recorded else f"gridless-potential-reuse-differs-{case['projection']}",
+                          case, {"second_shape": a.shape, "fresh_shape": b.shape, "potential_gpts": list(pot.gpts), "waves_gpts_after": list(w2.gpts)})
+
     def conformance(self, ctx: Ctx):
+        for k, proj in enumerate(("infinite", "finite", "infinite")):
+            c = gen_case(ctx, projection=proj)
+            for key in ("gpts0", "sampling0", "nogrid", "phonons"):
+                c.pop(key, None)
+            c.update(oracle="gridless", g1=ctx.rng.choice([[8, 8], [12, 12]]), g2=ctx.rng.choice([[16, 16], [8, 12], [10, 10]]) if k < 2 else None)
+            if c["g2"] is None:
+                c["g2"] = c["g1"]  # same grid twice: must simply work
+            c["ops"] = []
+            self.oracle_gridless_reuse(ctx, c)
+            ctx.case(c)
+            ctx.count(f"conf:{proj}:gridless-reuse")
         for proj in ("infinite", "finite"):
             for ops in self.DIRECTED:
                 c = gen_case(ctx, projection=proj)
@@ -305,8 +340,6 @@ class C11(Property):
                 if ops[0][0] == "match":
                     c.pop("gpts0")
                     c["nogrid"] = True
-                elif c["ops"] and c["ops"][0][0] == "match":
-                    c["ops"] = c["ops"][1:]
                 if len(ops) % 2 == 0 and proj == "finite":
                     c["phonons"] = [ctx.rng.randint(0, 10 ** 6) for _ in range(2)]
                 self.oracle(ctx, c)
@@ -323,7 +356,10 @@ class C11(Property):
             ctx.count(f"conf:{c['projection']}:{'sim' if any(o[0] == 'simulate' for o in c['ops']) else 'build'}:{'phonons' if c.get('phonons') else 'atoms'}")
 
     def replay(self, ctx: Ctx, case):
-        self.oracle(ctx, case)
+        if case.get("oracle") == "gridless":
+            self.oracle_gridless_reuse(ctx, case)
+        else:
+            self.oracle(ctx, case)
 
 
 if __name__ == "__main__":
